@@ -304,6 +304,9 @@ let run_case (x : sx) : Stdlib.String.t =
                           | L (A "e" :: inner) -> BE (List.map rstep_of inner)
                           | L (A "n" :: inner) -> BN (List.map rstep_of inner)
                           | L (A "c" :: L inner :: A o :: lit) -> BC (List.map rstep_of inner, op_of o, cp lit)
+                          | L (A "re" :: j) -> BRE (List.map rstep_of j)
+                          | L (A "rn" :: j) -> BRN (List.map rstep_of j)
+                          | L [A "cr"; L inner; A o; L j] -> BCR (List.map rstep_of inner, op_of o, List.map rstep_of j)
                           | L [A "l"; L inner; A ne; L lv] ->
                               let l = match lv with
                                 | A "s" :: A q :: body -> LStr (n_of_int (int_of_string q), cp body)
